@@ -120,6 +120,15 @@ func regMenu(seed int64) []regOp {
 		s.e[0] = *out
 		s.p[0] = ref.Mul(s.p[0], t1)
 	})
+	add("r1:=MultiExp([r0,r1],[0,0]) into a zero-valued receiver", func(c *ipa.IPAConfig, s *regState) {
+		var acc banderwagon.Element // never initialised by the caller: MultiExp must set it completely
+		out, err := acc.MultiExp([]banderwagon.Element{s.e[0], s.e[1]}, []fr.Element{{}, {}}, banderwagon.MultiExpConfig{NbTasks: 2, ScalarsMont: true})
+		if err != nil {
+			panic("MultiExp failed: " + err.Error())
+		}
+		s.e[1] = *out
+		s.p[1] = ref.Identity()
+	})
 	add("r1:=Commit(s*e_3)", func(c *ipa.IPAConfig, s *regState) {
 		v := make([]fr.Element, 4)
 		v[3] = se
@@ -300,7 +309,7 @@ func regUnits(id string, mkInv func() regInv, depthQuick, depthThorough int) fun
 func init() {
 	core.Register(&core.Check{
 		ID: "C07", Level: "model_checking",
-		Rule:   "explicit-state breadth-first search over a two-register machine of group elements: 29 operations (Add/Sub/Double/Neg in aliased forms, ScalarMul by {0,2,3,r-1,lambda}, Normalize, BatchNormalize, AddMixed with (0,-1) (class flip), projective rescaling, constants, decode(encode), trusted uncompressed round trip, MultiScalar, table-based Commit), ALL sequences up to depth 3 (5 thorough) from (G, SRS[1]), states de-duplicated on the exact concrete limbs of both registers; in every distinct state: Bytes = reference class bytes (also via ElementsToBytes), Equal(r0,r1) <=> same reference class <=> equal bytes, symmetry/reflexivity/transitivity, decode(Bytes) Equal, never Equal to the all-zero value, and path independence against all previously seen states; non-trivial = states whose registers hold the same class in different representations",
+		Rule:   "explicit-state breadth-first search over a two-register machine of group elements: 30 operations (Add/Sub/Double/Neg in aliased forms, ScalarMul by {0,2,3,r-1,lambda}, Normalize, BatchNormalize, AddMixed with (0,-1) (class flip), projective rescaling, constants, decode(encode), trusted uncompressed round trip, MultiScalar, MultiExp incl. all-zero scalars into an uninitialised receiver, table-based Commit), ALL sequences up to depth 3 (5 thorough) from (G, SRS[1]), states de-duplicated on the exact concrete limbs of both registers; in every distinct state: Bytes = reference class bytes (also via ElementsToBytes), Equal(r0,r1) <=> same reference class <=> equal bytes, symmetry/reflexivity/transitivity, decode(Bytes) Equal, never Equal to the all-zero value, and path independence against all previously seen states; non-trivial = states whose registers hold the same class in different representations",
 		Assume: []string{"reference class = independent math/big group law applied along the same history", "state key = exact limbs (no abstraction); the bound is the depth"},
 		Units:  regUnits("C07", func() regInv { return c07Invariant(&c07roll{byBytes: map[[32]byte]ref.Pt{}}) }, 3, 5),
 	})
